@@ -141,6 +141,30 @@ Example C05_float_close_ex_fallback :      (* '1.5' <- 1.23456789e-13: no "%.pf"
 Proof. vm_compute. reflexivity. Qed.
 Print Assumptions C05_float_close_ex_fallback.
 
+(* THE FLOAT THEOREM, total form: format() does return a text for every float node and every double (the
+   decimal exponent search never runs out of fuel, float() accepts every text of _format_float, float(round(x))
+   does not overflow), and that text reads back within the tolerance *)
+Theorem C05_float_close_total : forall tok pad np nd x,
+  make_node KFloat tok pad np = Ok nd ->
+  is_double x ->
+  followed_ok (pad_nodes (set_value nd (VFlt x))) ->
+  exists s y, format (set_value nd (VFlt x)) = Ok s /\ reads_as s y /\ isclose y x = true.
+Proof. exact float_node_close_total. Qed.
+Print Assumptions C05_float_close_total.
+
+Theorem C05_format_total : forall tok pad np nd x,
+  make_node KFloat tok pad np = Ok nd -> is_double x ->
+  exists s, format (set_value nd (VFlt x)) = Ok s.
+Proof. exact float_format_total. Qed.
+Print Assumptions C05_format_total.
+
+(* _format_float never fails on a double (no Err EFuel): the log10 estimate floor(lg * 0.30103) is within one
+   of the truth for each of the 2100 binary exponents of a double (finite sweep by vm_compute) *)
+Theorem C05_format_float_total : forall reversed f x p, is_double x -> 0 <= p ->
+  exists t, format_float reversed f x p = Ok t.
+Proof. exact format_float_total. Qed.
+Print Assumptions C05_format_float_total.
+
 (* the two ways the float branch ends *)
 Theorem C05_float_text_cases : forall reversed f x s,
   float_text reversed f x = Ok s -> reads_back s x = Ok true \/ fallback_text f x = Ok s.
